@@ -21,7 +21,7 @@ CONSTANTS Conds,      \* sequence of [pre |-> preorder nodes]; leaf kinds lit / 
           Defs,       \* sequence of [name, def (MacroExpand!Def), lit]: lit # 0: object-like macro whose body is Lits[lit]
           Texts,      \* sequence of token-spelling sequences
           Names,      \* macro names usable in #ifdef / #ifndef / #undef
-          CondIdx, DefIdx, TextIdx,   \* the menus actually used by a run
+          CondIdx, ElifIdx, DefIdx, TextIdx,   \* the menus actually used by a run (conditions of #if / of #elif)
           Zero, One,  \* indices in Lits of the literals 0 and 1
           MaxLines, MaxNest,
           MacroFocus  \* TRUE: generate only units `increasing #defines, then one text line` (macro runs)
@@ -147,7 +147,8 @@ Finish ==
   /\ MacroFocus => lines[Len(lines)].k = "text"
   /\ fin' = TRUE /\ UNCHANGED <<lines, stack, macros, lits, out, evald>>
 
-Next == \/ \E c \in CondIdx : IfEval(c) \/ IfSkip(c) \/ ElifEval(c) \/ ElifSkip(c)
+Next == \/ \E c \in CondIdx : IfEval(c) \/ IfSkip(c)
+        \/ \E c \in ElifIdx : ElifEval(c) \/ ElifSkip(c)
         \/ \E m \in Names : Ifdef(m, FALSE) \/ Ifdef(m, TRUE) \/ UndefLine(m)
         \/ Else \/ Endif \/ Finish
         \/ \E d \in DefIdx : Define(d)
